@@ -366,11 +366,16 @@ func exec(in string) string {
 		if f[1] == "n" {
 			return run(opsField, zero, func() omap.Map[int, int] { return omap.New[int, int]() }, intCodec, intCodec, intMacro(nil))
 		}
-		ncmp := new(int) // calls of the comparator (the depth orders of the D operation read it)
+		lg := new(cmpLog) // the node keys the comparator is called with (the real-depth orders of D read it)
 		base := cmpFor(f[1])
 		return run(opsField, zero, func() omap.Map[int, int] {
-			return omap.NewFunc[int, int](func(a, b int) int { *ncmp++; return base(a, b) })
-		}, intCodec, intCodec, intMacro(ncmp))
+			return omap.NewFunc[int, int](func(a, b int) int {
+				if lg.on {
+					lg.seen = append(lg.seen, b)
+				}
+				return base(a, b)
+			})
+		}, intCodec, intCodec, intMacro(lg))
 	}
 	return run(opsField, zero, func() omap.Map[string, string] {
 		if f[1] == "n" {
@@ -580,10 +585,13 @@ func (x *gen) bigMaps() {
 		}
 		ops = append(ops, fmt.Sprintf("%sB%c:0:%d:3:%d", at(), pat, n, r.Intn(100000)))
 		probeOp(n)
-		for _, fr := range []int{2, 4, 8, 16} {
-			ops = append(ops, fmt.Sprintf("%sD%c:%d:%d", at(), ord, n/fr, r.Intn(100000)))
-			probeOp(n / fr)
-			if fr == 4 || fr == 16 {
+		// the tree below the map (balance 250) is rebuilt by the Delete that takes it under (250*peak+1000)/2000,
+		// about 1/8 of its peak: the stages are 1/2, 1/4, exactly that threshold (the smallest size not yet
+		// rebuilt), and 1/16 (rebuilt)
+		for _, keep := range []int{n / 2, n / 4, (250*n + 1000) / 2000, n / 16} {
+			ops = append(ops, fmt.Sprintf("%sD%c:%d:%d", at(), ord, keep, r.Intn(100000)))
+			probeOp(keep)
+			if keep == n/4 || keep == n/16 {
 				session()
 			}
 		}
@@ -608,14 +616,15 @@ func (x *gen) bigMaps() {
 				emitOne(pat, orders[oi], sizeFor(), cmpOf())
 				emitOne(pat, orders[oi], sizeFor(), cmpOf())
 			}
-			for j := 0; j < 4; j++ { // the real-depth orders need a comparator given to NewFunc (its calls are counted)
-				emitOne(pat, "sssp"[j], sizeFor(), custom())
+			for j := 0; j < 6; j++ { // the real-depth orders need a comparator given to NewFunc (its calls are logged)
+				emitOne(pat, "PPPssp"[j], sizeFor(), custom())
 			}
 			continue
 		}
-		// quick: the real shallow-first order; an order that keeps the keys this growth pattern puts deepest;
+		// quick: the order that keeps the deepest keys with their ancestors; the real shallow-first order; an order that keeps the keys this growth pattern puts deepest;
 		// one order at random (for random growth: one that removes from the ends or from the middle)
 		adv := adversarial[pat]
+		emitOne(pat, 'P', sizeFor(), custom())
 		emitOne(pat, 's', sizeFor(), custom())
 		emitOne(pat, adv[r.Intn(len(adv))], sizeFor(), cmpOf())
 		if pat == 'r' {
@@ -625,13 +634,10 @@ func (x *gen) bigMaps() {
 			emitOne(pat, (orders + "sp")[r.Intn(len(orders)+2)], sizeFor(), custom())
 		}
 	}
-	for j := 0; j < 3; j++ {
-		emitOne("rid"[j], 's', sizeFor(), custom())
-	}
 }
 
 func main() {
-	tr.Main("C04: exhaustive histories of up to 3 (quick) / 4 (thorough) Set/Delete/Clear over 3 keys each followed by Len, Keys, String, Get of every key and First/Last/Seek of every target (below, present, between, above) with full Next and Prev sweeps, under cmp.Compare and (one level shallower) under comparators returning arbitrary magnitudes (a-b, 7*(b-a), MinInt/MaxInt); the same battery on Map[string,string] with the empty string as a key and as a value; random histories of up to 60 operations over small and large key spaces under natural, reversed, modular, magnitude (a-b, 3*(a-b), (a-b)<<32, b-a, 7*(b-a), modular differences, MinInt/MaxInt) comparators and on string keys under strings.Compare, reversed, length-difference, byte-difference and first-byte comparators, mixing edits with lookups, Keys, String, iterators in 3 registers (First, Last, Seek, Iter.Seek re-synchronization after edits, Next/Prev steps and sweeps from seek positions), a fifth of the operations through a copy of the Map value; deleting, updating and inserting while iterating with Iter.Seek re-synchronization after every edit; ascending/descending bulk loads to 300 keys; the zero Map (both key types) with every read operation, Delete, Clear, every iterator constructor and move, and with Set. A case is non-trivial when it contains at least one edit and one observation; distinct = distinct input lines.",
+	tr.Main("C04: exhaustive histories of up to 3 (quick) / 4 (thorough) Set/Delete/Clear over 3 keys each followed by Len, Keys, String, Get of every key and First/Last/Seek of every target (below, present, between, above) with full Next and Prev sweeps, under cmp.Compare and (one level shallower) under comparators returning arbitrary magnitudes (a-b, 7*(b-a), MinInt/MaxInt); the same battery on Map[string,string] with the empty string as a key and as a value; random histories of up to 60 operations over small and large key spaces under natural, reversed, modular, magnitude (a-b, 3*(a-b), (a-b)<<32, b-a, 7*(b-a), modular differences, MinInt/MaxInt) comparators and on string keys under strings.Compare, reversed, length-difference, byte-difference and first-byte comparators, mixing edits with lookups, Keys, String, iterators in 3 registers (First, Last, Seek, Iter.Seek re-synchronization after edits, Next/Prev steps and sweeps from seek positions), a fifth of the operations through a copy of the Map value; deleting, updating and inserting while iterating with Iter.Seek re-synchronization after every edit; ascending/descending bulk loads to 300 keys; big maps (round 3, macro operations B/D/Q of scale.go): growth order (ascending, descending, outside-in, inside-out, random, ideal breadth-first) x delete order (low end, high end, outside-in, inside-out, ideal breadth-first and its reverse, random, evenly spaced survivors, and - measured through the comparator calls of GetOK on a NewFunc map - shallowest/deepest first by real depth and keeping the deepest root-to-leaf paths) with 2^k-1, 2^k, 2^k+1 keys for k = 8..12 (thorough ..13), shrunk in stages to 1/2, 1/4, the exact size at which the tree below is not yet rebuilt (about 1/8 of the peak) and 1/16, then regrown with new and overwritten keys; after every stage from EVERY key Seek, GetOK/Get, Next and Prev steps, a Next/Prev zig-zag, Iter.Seek of a moved iterator, Seek of the absent key just above, and full First/Next and Last/Prev sweeps folded into digests, plus explicit iterator sessions at both ends, in the middle and at random keys; the zero Map (both key types) with every read operation, Delete, Clear, every iterator constructor and move, and with Set. A case is non-trivial when it contains at least one edit and one observation; distinct = distinct input lines.",
 		exec, func(g *tr.G) {
 			x := &gen{g}
 			r := g.R
